@@ -119,6 +119,17 @@ CLAIMED = {
    note="Trusted: Coq kernel+vm_compute; mistune and the Markdown renderers (arbitrary string in the theorems); the harness' lexical "
         "stripper. Two defects repaired (c68de42 terminator, 02a4a46 backslash).",
    technique="Coq proof over all strings (comment filter, literal escaping) + vm_compute correspondence + metamorphic non-interference runs", design="7/C12"),
+ 'C18': dict(
+   text="Coq refinement proof for a Gallina state-machine model of validate() and the request handlers: for EVERY event sequence "
+        "(open/change/close/definition/symbols, any number of documents) whose texts the front end can judge, the last published "
+        "diagnostics and the caches of every open document are those of its CURRENT text; queries are answered from those caches only; "
+        "close drops the state; queries on unknown documents answer nothing; a handler ends in the error logger only if the front end "
+        "itself fails internally on the new text. Tied to /repo by driving the real handlers in-process: front_of(text) is observed on a "
+        "fresh single-text server, random (thorough: also exhaustive depth-3) event sequences over two documents and 14 texts are replayed "
+        "on one server and every output is compared with the model (vm_compute); absolute expectations guard the fresh observations.",
+   note="Trusted: Coq kernel+vm_compute; pygls/lsprotocol (transport and text synchronisation bypassed: handlers are called directly). Two "
+        "defects repaired (e105e67, b16dc95); known finding C18-K1 (consequence of C06-K1).",
+   technique="Coq refinement proof over all event sequences + vm_compute correspondence against the real handlers", design="7/C18"),
 }
 PENDING_REASON = "check not built yet in this session (work in progress; see DESIGN.md section 10 build order)"
 HOOK_COMMITS = []
